@@ -7,7 +7,16 @@ from .common import FAIL, OK, STUBS_COMMON, BodyErr, CbErr, DeviationTape, Harne
 from .ctree import RT
 
 import symsched
-from asphalt.core import Context, add_teardown_callback, current_context, get_resources, start_service_task  # noqa: E402
+from asphalt.core import (  # noqa: E402
+    Component,
+    Context,
+    add_resource,
+    add_teardown_callback,
+    current_context,
+    get_resources,
+    start_component,
+    start_service_task,
+)
 
 ACTIONS = ["'cancel'", "None (task ends by itself)", "sync callable", "async callable", "sync callable that raises",
            "async callable that raises when awaited", "callable object (class with __call__)"]
@@ -20,7 +29,7 @@ def cfg(tier):
 
 def params(tier):
     D, L = cfg(tier)
-    ps = [P("n", 0, 2), P("nested", 0, 1), P("act", 0, 6), P("cleanup", 0, 1), P("k0", 0, 1), P("k1", 0, 1), P("k2", 0, 1), P("act2", 0, 1)]
+    ps = [P("n", 0, 2), P("nested", 0, 1), P("act", 0, 6), P("via", 0, 1), P("cleanup", 0, 1), P("k0", 0, 1), P("k1", 0, 1), P("k2", 0, 1), P("act2", 0, 1)]
     for j in range(D):
         ps += [P(f"gap{j}", 0, L), P(f"arm{j}", 0, 3)]
     return ps
@@ -31,6 +40,7 @@ def fn(a, tier):
     D, L = cfg(tier)
     n = 1 + pick(a["n"], 3)
     nested = pick(a["nested"], 2)
+    via = pick(a["via"], 2)  # 0: module-level shortcuts in the owning context; 1: the same calls made inside a component's start()
     kinds = [pick(a[f"k{i}"], 2) for i in range(n)]  # 0 resource with teardown callback, 1 service task
     first_task = next((i for i, k in enumerate(kinds) if k == 1), None)
     act = pick(a["act"], 7) if first_task is not None else 0
@@ -113,12 +123,24 @@ def fn(a, tier):
     async def block():
         async with Context() as ctx:
             info["ctx"] = ctx
-            for i in range(n):
-                if kinds[i] == 0:
-                    ctx.add_resource(object(), f"r{i}", [RT[i]], teardown_callback=lambda i=i: log.append(("res_td", i)))
-                else:
-                    task, td = make_task(i)
-                    await start_service_task(task, f"svc{i}", teardown_action=td)
+
+            async def register_items():
+                for i in range(n):
+                    if kinds[i] == 0:
+                        add_resource(object(), f"r{i}", [RT[i]], teardown_callback=lambda i=i: log.append(("res_td", i)))
+                    else:
+                        task, td = make_task(i)
+                        await start_service_task(task, f"svc{i}", teardown_action=td)
+
+            if via:
+
+                class Comp(Component):
+                    async def start(self):
+                        await register_items()
+
+                await start_component(Comp, {}, timeout=None)
+            else:
+                await register_items()
             await anyio.sleep(0)
             log.append(("leaving",))
         log.append(("left",))
@@ -134,7 +156,8 @@ def fn(a, tier):
 
     _, exc, k = run(main, chooser=tape)
     summary = {"items": ["resource+teardown cb" if kd == 0 else f"service task, teardown_action={ACTIONS[action_for(i)]}" for i, kd in enumerate(kinds)],
-               "cleanup_checkpoints_after_stop": cleanup, "context": "nested" if nested else "root", "schedule": tape.taken}
+               "cleanup_checkpoints_after_stop": cleanup, "context": "nested" if nested else "root",
+               "registered": "inside a component's start()" if via else "directly in the owning context", "schedule": tape.taken}
     if exc is not None:
         return FAIL(f"raised:{type(flatten(exc)[0]).__name__}:action={ACTIONS[act]}", f"{exc!r} log={log}", summary)
     pos = {e: i for i, e in enumerate(log)}
@@ -185,11 +208,11 @@ H = Harness(
     name="S-order",
     fn=fn,
     params=params,
-    cube=lambda tier: 3,
+    cube=lambda tier: 4,
     title="service tasks and resources with teardown callbacks registered in any order; every teardown_action kind",
     bound_text=lambda tier: "1-3 items, each a resource with a teardown callback or a service task; first task's teardown_action in {"
     + "; ".join(ACTIONS) + "}, later tasks {'cancel', sync callable}; task needs 0 or 2 (shielded) checkpoints of clean-up and has an async teardown "
-    "callback in its own context; root / nested owner; FIFO schedule with "
+    "callback in its own context; root / nested owner; items registered directly or from inside a component's start() (ComponentContext wrappers); FIFO schedule with "
     + ("one deviation within the first 8 decisions" if tier == "quick" else "two deviations"),
     oracle="task end AND its own context's teardown precede every callback registered before the task and follow those registered after; "
     "callable invoked exactly once; task sees a cancellation iff action is 'cancel' or the callable raised; task context = snapshot at start, "
